@@ -1541,7 +1541,7 @@ func split(r *rand.Rand, es []Entry) [][]Entry {
 	return bs
 }
 
-// genManySeries: n series of one entry each (foreign fingerprints 1..n, one shared label set) under a range aggregation
+// genManySeries: n series of one entry each (foreign fingerprints 1..n, label sets {app:x, i:<n>}) under a range aggregation
 func genManySeries(id int, n int) Case {
 	c := Case{ID: id, Class: fmt.Sprintf("series%d", n), Limit: 0}
 	c.Query = `count_over_time({app="x"} | line_format "x" [10s])`
@@ -1549,7 +1549,8 @@ func genManySeries(id int, n int) Case {
 	c.To = c.From + 10*1e9
 	var es []Entry
 	for i := 1; i <= n; i++ {
-		es = append(es, Entry{TS: c.From + int64(i%10)*1e9, FP: uint64(i), Labels: map[string]string{"app": "x"}, Msg: hx.Hex("m"), Val: fhex(0)})
+		// one label set per fingerprint, as ClickHouse delivers them
+		es = append(es, Entry{TS: c.From + int64(i%10)*1e9, FP: uint64(i), Labels: map[string]string{"app": "x", "i": strconv.Itoa(i)}, Msg: hx.Hex("m"), Val: fhex(0)})
 	}
 	es = append(es, Entry{Err: "eof", Val: fhex(0)})
 	for i := 0; i < len(es); i += 100 {
